@@ -203,6 +203,7 @@ class Ctx:
         self.exhaustive = False
         self.findings = load_findings(pid)
         self.replay_mode = False
+        self.viol_classes = {}
 
     # -- TLC runs are accumulated into the evidence
     def add_tlc(self, label, res, counts=True):
@@ -251,7 +252,8 @@ class Ctx:
             h['n'] += 1
             return False
         c['bad'] += 1
-        if len(self.violations) < 50:
+        self.viol_classes[(clause, cls)] = self.viol_classes.get((clause, cls), 0) + 1
+        if self.viol_classes[(clause, cls)] <= 3 and len(self.violations) < 60:
             self.violations.append(dict(clause=clause, cls=cls, detail=detail, vector=vector))
         return False
 
@@ -294,6 +296,8 @@ class Ctx:
         print('%s %s: states=%d transitions=%d traces=%d evaluations=%d wall=%.1fs' %
               (self.pid, self.tier, self.states, self.transitions, self.traces, self.evaluations, wall))
         if nviol:
+            for (cl, cs), n in sorted(self.viol_classes.items()):
+                print('  violation class %s [%s]: %d case(s)' % (cl, cs, n))
             for v in self.violations[:5]:
                 print('  violated %s [%s]: %s' % (v['clause'], v['cls'], str(v['detail'])[:300]))
             print('VIOLATION property=%s replay=%s' % (self.pid, replay_path))
